@@ -1015,6 +1015,142 @@ def h_canon(state):
 
 
 # ---------------------------------------------------------------------------------------------
+# object-level history: spectra of ONE Interferogram whose data are edited in place between calls
+
+O_DX = 0.5
+O_PSD_OPS = ('psd', 'blrms_full', 'blrms_band', 'tis')
+O_EDIT_OPS = ('remove_piston', 'remove_tiptilt', 'remove_power', 'fill0', 'mask+fill', 'spike_clip+fill', 'scale', 'assign')
+_O_EVENTS = [{'op': o} for o in O_PSD_OPS + O_EDIT_OPS]
+
+
+def o_fresh(init, seed):
+    n0, n1 = init['n0'], init['n1']
+    i, j = np.indices((n0, n1))
+    h = dense((n0, n1), seed, salt=53, complex_=False) + 3.0 + 0.4 * j - 0.2 * i + 0.05 * ((i - n0 // 2) ** 2 + (j - n1 // 2) ** 2)
+    h[1, 2] += 40.0      # one spike for spike_clip
+    return {'itf': Interferogram(h, O_DX), 'seed': int(seed), 'hist': [], 'last': None, 'n': (n0, n1)}
+
+
+def o_events(init, h, state):
+    return _O_EVENTS
+
+
+def o_psd_call(itf, op, R, n0, n1):
+    if op == 'psd':
+        p = R.call(itf.psd)
+        if p is FAILED:
+            return FAILED
+        try:
+            return (np.asarray(p.x), np.asarray(p.y), np.asarray(p.data))
+        except Exception as e:   # noqa
+            R.violation('Interferogram.psd:output', f'{type(e).__name__}: {e}')
+            return FAILED
+    if op == 'blrms_full':
+        return R.call(itf.bandlimited_rms, flow=0.0, fhigh=None)
+    if op == 'blrms_band':
+        _, _, mids = radial_classes(n0, n1, O_DX)
+        m = len(mids)
+        return R.call(itf.bandlimited_rms, wllow=1.0 / float(mids[(2 * m) // 3]), wlhigh=1.0 / float(mids[m // 3]))
+    return R.call(itf.total_integrated_scatter, 50.0, 30.0)
+
+
+def o_apply(state, ev, R):
+    op = ev['op']
+    itf = state['itf']
+    n0, n1 = state['n']
+    out = None
+    if op in O_PSD_OPS:
+        out = o_psd_call(itf, op, R, n0, n1)
+    elif op in ('remove_piston', 'remove_tiptilt', 'remove_power'):
+        R.call(getattr(itf, op))
+    elif op == 'fill0':
+        R.call(itf.fill, 0)
+    elif op == 'mask+fill':
+        i, j = np.indices((n0, n1))
+        keep = ((i - n0 // 2) ** 2 + (j - n1 // 2) ** 2) <= (min(n0, n1) / 2.0) ** 2
+        R.call(itf.mask, keep)
+        R.call(itf.fill, 0)
+    elif op == 'spike_clip+fill':
+        R.call(itf.spike_clip)
+        R.call(itf.fill, 0)
+    elif op == 'scale':
+        itf.data *= 2
+        R.tick()
+    elif op == 'assign':
+        itf.data[...] = dense((n0, n1), state['seed'], salt=59, complex_=False) - 1.0
+        R.tick()
+    state['hist'].append(ev)
+    state['last'] = out
+    return state
+
+
+def o_check(state, init, history, R):
+    if not history or history[-1]['op'] not in O_PSD_OPS:
+        return
+    op = history[-1]['op']
+    out = state['last']
+    n0, n1 = state['n']
+    edits = [e['op'] for e in history[:-1] if e['op'] in O_EDIT_OPS]
+    pre = 'Interferogram:after-inplace-edit:' if (edits and any(e['op'] in O_PSD_OPS for e in history[:-1])) else 'Interferogram:'
+    what = f'{n0}x{n1} history {[e["op"] for e in history]}'
+    try:
+        if out is FAILED:
+            return
+        try:
+            h = np.array(state['itf'].data, dtype=float, copy=True)
+            ok = h.shape == (n0, n1) and bool(np.isfinite(h).all())
+        except Exception:   # noqa
+            ok = False
+        if not R.expect(ok, pre + 'data', what + ': the data are no longer a finite array of the original shape'):
+            return
+        # what a fresh Interferogram built from a copy of the CURRENT data returns
+        fresh = o_psd_call(Interferogram(h.copy(), O_DX), op, R, n0, n1)
+        _, cands = window_choice('auto', h, O_DX)
+        if op == 'psd':
+            judge_psd(R, out, h, O_DX, cands, 'auto', what, prefix=pre + 'psd')
+            if fresh is not FAILED:
+                R.expect_equal(out[2], fresh[2], pre + 'psd:vs-fresh-object', what + ': psd().data vs a fresh Interferogram of the current data')
+        else:
+            if op == 'tis':
+                try:
+                    a = np.asarray(out, dtype=float)
+                    good = a.shape == () and bool(np.isfinite(a))
+                except Exception:   # noqa
+                    good = False
+                if not R.expect(good, pre + 'tis:output', what + ': TIS must be one finite number'):
+                    return
+                v = float(a)
+                f = None if fresh is FAILED else float(np.asarray(fresh, dtype=float))
+                scale = max(abs(v), 1e-300)
+            else:
+                v = as_ms(R, out, pre + op + ':output', what)
+                f = None if fresh is FAILED else as_ms(R, fresh, pre + op + ':output', what + ' (fresh object)')
+                if v is None:
+                    return
+                scale = max(v, 1e-300)
+                if op == 'blrms_full':
+                    best = None
+                    for name, w, wabs in cands:
+                        S2 = float((w ** 2).sum())
+                        cell = ref_psd(h * w, O_DX) / S2 / (n0 * n1 * O_DX * O_DX)
+                        MS, E = float(cell.sum()), float((cell * ring_mask(n0, n1)).sum())
+                        dev = abs(v - MS) - E - K * EPS * float(((h * wabs) ** 2).sum()) / S2
+                        if best is None or dev < best[0]:
+                            best = (dev, name, MS, E)
+                    R.expect(best[0] <= 0, pre + 'blrms_full:fullband', f'{what}: rms^2={v!r}, windowed mean square of the current data {best[2]!r} ({best[1]}), ring weight {best[3]!r}')
+            if f is not None:
+                R.expect(abs(v - f) <= 8 * EPS * max(scale, abs(f)), pre + op + ':vs-fresh-object', f'{what}: {v!r} vs a fresh Interferogram of the current data {f!r}')
+        R.nontrivial()
+        R.outcome(('edited->' if edits else '') + op)
+    finally:
+        prune(R)
+
+
+def o_canon(state):
+    return tuple(e['op'] for e in state['hist'])
+
+
+# ---------------------------------------------------------------------------------------------
 
 def plan(tier, seed):
     quick = tier == 'quick'
@@ -1085,6 +1221,10 @@ def plan(tier, seed):
                     '(both shifts), bandlimited_rms (function, 3 bands), Interferogram.bandlimited_rms for n in {8,9}; psd (user window / automatic) and Interferogram.psd on 8x8, 9x9, 8x9}} '
                     f'in one process with dx = {H_DX} and size = (n-1) dx, so synthesis and analysis request the same (dx, n): after any preceding call every result must satisfy the '
                     'fresh-state reference (axes exactly (i-n//2)/(n dx), Parseval, spectrum on its axes, band integrals, synthesised RMS) and a repeated call must reproduce itself', reset=rs),
+        HistoryUnit('object_history', [{'n0': 8, 'n1': 9}] + ([] if quick else [{'n0': 9, 'n1': 9}, {'n0': 12, 'n1': 7}]), o_fresh, o_events, o_apply, o_check, o_canon, 3,
+                    f'every history of length <= 3 on ONE Interferogram over {{{", ".join(O_PSD_OPS)}}} (psd, full-band / period-band bandlimited_rms, total_integrated_scatter) and the in-place '
+                    f'editors {{{", ".join(O_EDIT_OPS)}}} (scale: data *= 2, assign: data[...] = other): whenever the last call is a spectrum-type call it must satisfy axes / Parseval / '
+                    'spectrum-on-axes / full-band integral against the reference computed from the CURRENT data and equal what a fresh Interferogram built from a copy of the current data returns', reset=rs),
         ScopeUnit('synthesis', synth_cases, run_synth,
                   'samples x mask {none, circle, half} x {abc_psd, ab_psd} x 2 parameter sets x rms {1, 3.7} x size: numpy.random seeded with seed XOR crc32(case) before '
                   'every call, rendered twice (bit-identical), RMS over the valid samples == requested, NaN exactly outside the mask; Interferogram.render_from_psd '
